@@ -246,7 +246,7 @@ class Report:
             self._known = json.load(open(p))['findings'] if os.path.exists(p) else []
         return self._known
 
-    def classify(self, cls, components=()):
+    def classify(self, cls, components=(), case=None, mismatch=None):
         """Returns the known-finding entry (status 'known') that names this class AND one of the components
         (the specific operator / call site that fails) for this property, else None."""
         for f in self.known():
@@ -256,12 +256,18 @@ class Report:
             if cls not in (fc if isinstance(fc, list) else [fc]):
                 continue
             comp = f.get('component')
-            if comp is None or any(c in components for c in (comp if isinstance(comp, list) else [comp])):
-                return f
+            if not (comp is None or any(c in components for c in (comp if isinstance(comp, list) else [comp]))):
+                continue
+            pred = f.get('predicate')
+            if pred:
+                import predicates
+                if case is None or not predicates.PREDICATES[pred](case, mismatch):
+                    continue
+            return f
         return None
 
-    def add_violation(self, cls, desc, replay_obj=None, replay_path=None, components=()):
-        f = self.classify(cls, components) if cls else None
+    def add_violation(self, cls, desc, replay_obj=None, replay_path=None, components=(), case=None, mismatch=None):
+        f = self.classify(cls, components, case, mismatch) if cls else None
         if f is not None:
             self.known_hits.setdefault(f['id'], [0, f])[0] += 1
             return False
